@@ -215,12 +215,17 @@ PROPS = {
         "assumptions": ["files rendered in the JAX formats: one blank line between stanzas, every stanza line `tag: value`, `is_a: HP:x ! label`, one header line in the gene files", "no Unicode white space at line ends (trim is modelled for ASCII white space)"],
     },
     "C10": {
-        "subs": [dict(sub("C10", "run_C10", "spec_C10", W_IMPORTS + ["Run.C02", "Run.C10"], 150, 1500), proj=proj_c10)],
+        "subs": [dict(sub("C10", "run_C10", "spec_C10", W_IMPORTS + ["Run.C02", "Run.C10"], 150, 1500), proj=proj_c10),
+                 sub("C10m", "run_C10m", "spec_C10m", W_IMPORTS + ["Run.C02", "Run.C10"], 1, 4)],
         "run_modules": ["C10"],
         "rule": "per case the crate's Ontology::hpo is swept over EVERY id 0..10^7+1 plus 16 probes up to u32::MAX (ids of the ontology shifted "
                 "by 10^7 and by 2^31: table aliasing); ontologies from the Builder and binary files with dense / sparse / border ids "
                 "(0, 1, 9 999 999); iteration and len(); gene_by_name / omim_diseases_by_name / omim_disease_by_name for full names, prefixes, "
-                "suffixes, infixes (multi-byte), the empty string and absent names; non-trivial = ontology with an id above 65 535 and >= 3 terms",
+                "suffixes, infixes (multi-byte), the stored name in another ASCII casing, the empty string and absent names; "
+                "non-trivial = ontology with an id above 65 535 and >= 3 terms; "
+                "C10m: one ontology (thorough: four) of 65 537-70 536 terms (ids first + i*stride), the same full sweep summarised as "
+                "(answered, answered with another id or name, sum / min / max of answered ids, len, iteration count and sum); the model "
+                "builds it through the block forms of Model/ManyTerms.v, proved equal to the call-by-call Builder transcription",
         "trust": ["str::contains on valid UTF-8 = byte-level infix (core::str contract)"],
         "assumptions": ["a term whose insertion panics (id >= 10^7) was never added (DESIGN.md §3.2)"],
     },
